@@ -170,6 +170,14 @@ def streams(rng, tier):
                     com.append({"op": "tab", "cols": _table(n), "key": ["2d", k[1], k[2], k[3], spec, bool(n % 3)]})
     out.append(("commute", com))
     out.append(("cmp", cmp_cases(rng, 600 if tier == "quick" else 8000)))
+    # the same vector cases on "lived-in" operands (values.lived_in): read in every way, then rewritten in place
+    lived = []
+    for name, cases in out:
+        cand = [c for c in cases if (c.get("op") == "get" and len(c.get("vals") or []) >= 2)
+                or (c.get("op") == "cmp" and len(c.get("xs") or []) >= 2 and "fp" not in c)]
+        for c in rng.sample(cand, min(len(cand), 400 if tier == "quick" else 4000)):
+            lived.append(dict(c, lived=rng.randrange(1 << 30)))
+    out.append(("lived-in", lived))
     return out
 
 
@@ -326,7 +334,10 @@ def observe(case):
                 sl = None
             return {"py": list(range(n))[s], "slen": sl, "v": _vres(lambda: v[s]), "t": _tres(lambda: t[s])}
         if op == "get":
-            v = Vector([V.dec(x) for x in case["vals"]], name=case["name"])
+            if case.get("lived") is not None:
+                v = V.lived_in(lambda xs: Vector(xs, name=case["name"]), [V.dec(x) for x in case["vals"]], case["lived"])
+            else:
+                v = Vector([V.dec(x) for x in case["vals"]], name=case["name"])
             key = _mk_key(case["key"])
             return {"r": _vres(lambda: v[key]), "dt0": V.schema_obs(v.schema())}
         if op == "tab":
@@ -357,7 +368,10 @@ def observe(case):
                 except Exception:
                     b = None
                 tbl.append([V.enc(x), V.enc(y), b])
-            v = Vector(xs, name=case.get("name"))
+            if case.get("lived") is not None:
+                v = V.lived_in(lambda ys_: Vector(ys_, name=case.get("name")), list(xs), case["lived"])
+            else:
+                v = Vector(xs, name=case.get("name"))
             if isinstance(other, Vector) and isinstance(other, Table):
                 return {"skip": "operand became a table"}
             if case.get("fp"):                               # both fingerprints computed (and memoised) first
